@@ -460,4 +460,4 @@ def rand_case(draw):
 def search(ctx):
     thorough = ctx.tier == "thorough"
     ctx.enumerate(enum_cases(), "transfer kind x boundary length x response ordinal x disturbance x peer")
-    ctx.hypothesis(rand_case(), 3000 if thorough else 1200)
+    ctx.hypothesis(rand_case(), 20000 if thorough else 1200)
